@@ -39,12 +39,87 @@ let read_lines () =
   (try while true do ls := input_line stdin :: !ls done with End_of_file -> ());
   List.rev !ls
 
+(* ---- engine H: the HTTP front-end model (Model/Http.v) ------------------------------------ *)
+let qid_of s =
+  if s = "-" then QAbsent else if s = "bad" then QBad
+  else if String.length s > 3 && String.sub s 0 3 = "ok:" then QOk (n_of_hex (String.sub s 3 (String.length s - 3)))
+  else failwith ("qid " ^ s)
+let qttl_of s =
+  if s = "-" then TAbsent else if s = "bad" then TBad
+  else if String.length s > 3 && String.sub s 0 3 = "ok:" then
+    (match ttl_of (String.sub s 3 (String.length s - 3)) with Some t -> TOk t | None -> TAbsent)
+  else failwith ("qttl " ^ s)
+let hmeta_of s =
+  match s with
+  | "-" -> MAbsent | "b64" -> MBadB64 | "utf8" -> MBadUtf8 | "json" -> MBadJson | "nonascii" -> MNonAscii
+  | _ when String.length s > 3 && String.sub s 0 3 = "ok:" -> MOk (bytes_of_xhex (String.sub s 3 (String.length s - 3)))
+  | _ -> failwith ("hmeta " ^ s)
+
+let hreq_of (toks : string list) : hreq =
+  match toks with
+  | ["version"] -> RVersion
+  | ["cat"; sse; "bad"] -> RCat (sse = "1", None)
+  | ["cat"; sse; last; lim; ctx] -> RCat (sse = "1", Some ((opt id_of last, opt n_of_hex lim), opt id_of ctx))
+  | ["append"; topic; c; t; m; body; bh] ->
+    RAppend (bytes_of_xhex topic, qid_of c, qttl_of t, hmeta_of m, bytes_of_xhex body,
+             (if bh = "-" then [] else bytes_of_xhex bh))
+  | ["get"; i] -> RGet (qid_of i)
+  | ["remove"; i] -> RRemove (qid_of i)
+  | ["head"; topic; c] -> RHead (bytes_of_xhex topic, qid_of c)
+  | ["casget"; "bad"] -> RCasGet None
+  | ["casget"; h] -> RCasGet (Some (bytes_of_xhex (String.sub h 3 (String.length h - 3))))
+  | ["caspost"; body; bh] -> RCasPost (bytes_of_xhex body, (if bh = "-" then [] else bytes_of_xhex bh))
+  | ["import"; "bad"] -> RImport None
+  | ["import"; id; ctx; topic; hash; meta; ttl] -> RImport (Some (frame_of id ctx topic hash meta ttl))
+  | ["notfound"] -> RNotFound
+  | _ -> failwith ("bad request: " ^ String.concat " " toks)
+
+let str_of_hresp = function
+  | HDropped -> "= dropped"
+  | HResp (st, b) ->
+    let body = match b with
+      | BEmpty -> "empty" | BText -> "text" | BVersion -> "version"
+      | BFrame f -> "frame " ^ str_of_frame f
+      | BFrames (sse, l) ->
+        String.concat " " ("frames" :: (if sse then "1" else "0") :: string_of_int (List.length l) :: List.map str_of_frame l)
+      | BBytes b -> "bytes " ^ xhex_of_bytes b
+      | BHash h -> "hash " ^ xhex_of_bytes h in
+    Printf.sprintf "= %d %s" (int_of_n st) body
+
+(* `http <fixed 0|1>`: stdin lines "INIT <frame>" (initial store content) and
+   "REQ <id hex> <request tokens>"; output: echo + "= <response>" + "D <n> <frames>" *)
+let run_http fixed =
+  let st = ref { h_store = empty_store N0; h_cas = [] } in
+  List.iter (fun line ->
+      let toks = List.filter (fun s -> s <> "") (String.split_on_char ' ' (String.trim line)) in
+      match toks with
+      | "NOW" :: [t] -> st := { !st with h_store = empty_store (n_of_hex t) }
+      | "INIT" :: [f] ->
+        (match String.split_on_char ',' f with
+         | [id; ctx; topic; hash; meta; ttl] ->
+           let (_, s') = step !st.h_store (OImport (frame_of id ctx topic hash meta ttl)) in
+           st := { !st with h_store = s' }
+         | _ -> failwith "INIT")
+      | "REQ" :: id :: rest ->
+        let r = hreq_of rest in
+        let (resp, st0) = handle fixed !st (n_of_hex id) r in
+        (* the GC worker runs by itself in the server: the orchestrator waits for it after
+           every request, the model drains *)
+        let st' = { st0 with h_store = snd (step st0.h_store ODrain) } in
+        st := st';
+        print_endline line;
+        print_endline (str_of_hresp resp);
+        let fs = List.map snd st'.h_store.s_stream in
+        print_endline (String.concat " " ("D" :: string_of_int (List.length fs) :: List.map str_of_frame fs))
+      | _ -> ()) (read_lines ())
+
 (* `gen-sched <locked 0|1> <seed> <steps> <finish 0|1>`: stdin = configuration lines;
    stdout = schedule with expectations.
    `labels-sched <locked>`: stdin = configuration lines followed by "label idx" lines. *)
 let () =
   match Array.to_list Sys.argv with
   | _ :: "seq" :: _ -> run_seq ()
+  | [_; "http"; fixed] -> run_http (fixed = "1")
   | [_; "gen-sched"; locked; seed; steps; finish] ->
     let cfg = Schedgen.parse_cfg (read_lines ()) in
     List.iter print_endline
@@ -58,4 +133,4 @@ let () =
                                         "hist"; "live"; "consume"; "probe"] -> Some (name, int_of_string i)
         | _ -> None) lines in
     List.iter print_endline (Schedgen.of_labels (locked = "1") cfg labels)
-  | _ -> prerr_endline "usage: xsmodel seq|gen-sched|labels-sched"; exit 2
+  | _ -> prerr_endline "usage: xsmodel seq|http|gen-sched|labels-sched"; exit 2
